@@ -17,18 +17,29 @@ EmptyOnly  == { <<>> }
 AllFbs     == {"none", "in", "out"}
 RangeFbs   == {"none", "out"}
 NoRangeOnly == {NoRange}
-NoImsOnly  == {"none"}
-AllIms     == {"none", "earlier", "equal", "later", "bad"}
+UtcOnly    == {"UTC"}
+Date(d)    == [k |-> "date", d |-> d]
+BadIms     == [k |-> "bad", d |-> 0]
+NoImsOnly(z) == {NoIms}
+RangeIms(z)  == {NoIms, BadIms, Date(-1), Date(0), Date(1)}
+(* conditional requests under every zone: at the modification time, one second either side, at the zone's
+   offset(s) either side of it (+-1 s), and far away *)
+Abs(x) == IF x < 0 THEN -x ELSE x
+CondDeltas(z) == {-1, 0, 1, -34560000, 345600000}
+                 \cup {s * (Abs(ZoneOffsets(z)[i]) + e) : s \in {-1, 1}, e \in {-1, 0, 1}, i \in {1, 2}}
+CondIms(z)   == {NoIms, BadIms} \cup {Date(d) : d \in CondDeltas(z)}
+CondFiles    == { <<"f0">>, <<"f3">>, <<"x">> }
 R(k, a, b) == [k |-> k, a |-> a, b |-> b]
 RangeSpecs == {NoRange, R("unit", 0, 1), R("bad", 0, 0)}
               \cup {R("fl", a, b) : a \in 0..7, b \in 0..7}
               \cup {R("f", a, 0) : a \in 0..7} \cup {R("s", a, 0) : a \in 0..7}
+CondRanges   == {NoRange, R("fl", 1, 1), R("s", 2, 0), R("bad", 0, 0)}
 SizedFiles == { <<"f0">>, <<"f1">>, <<"f2">>, <<"f3">>, <<"f4">>, <<"f5", DOT, "t">>, <<"f6">>, <<"x">> }
 NoTokens   == {}
 (* small Range instance for the wrong-design runs *)
 SmallRanges == {NoRange} \cup {R("fl", a, b) : a \in 0..3, b \in 0..3} \cup {R("f", a, 0) : a \in 0..3} \cup {R("s", a, 0) : a \in 0..3}
 SmallFiles  == { <<"f0">>, <<"f2">>, <<"f3">> }
-SmallIms    == {"none", "earlier", "equal", "later"}
+SmallIms(z) == {NoIms, Date(-1), Date(0), Date(1)}
 NoFbOnly    == {"none"}
 
 Emit == Done => PrintT(ToJson([t |-> "case", c |-> rq, e |-> O]))
@@ -41,5 +52,6 @@ FileRec(e) == [path |-> e.path, size |-> e.size, content |-> Content(e.path)]
 ASSUME PrintT(ToJson([t |-> "fs",
                       files |-> SetToList({FileRec(e) : e \in FS}),
                       widths |-> [a \in Atoms |-> Width(a)],
-                      root |-> Root, sibling |-> Sib, fbin |-> FbPath("in"), fbout |-> FbPath("out"), maxwidth |-> MaxWidth]))
+                      root |-> Root, sibling |-> Sib, fbin |-> FbPath("in"), fbout |-> FbPath("out"), maxwidth |-> MaxWidth,
+                      zones |-> [z \in AllZones |-> ZoneOffsets(z)], nolm |-> NoLM]))
 ===============================================================================
